@@ -94,6 +94,36 @@ func scannerSegments(fn *ssa.Function) (outer *loop, segs []scanSegment, why str
 	return outer, segs, ""
 }
 
+// cursorStart: the scanner's cursors (the integer phis of the outer loop) enter the loop with the
+// constant 0, so that every character of both strings is scanned. A scanner that starts elsewhere
+// (a skipped common prefix) is outside what the segment rules decide: the runs it compares are then
+// not the maximal runs of the whole strings.
+func cursorStart(outer *loop) string {
+	n := 0
+	for _, ins := range outer.header.Instrs {
+		ph, ok := ins.(*ssa.Phi)
+		if !ok {
+			break
+		}
+		if !isIntType(ph.Type()) {
+			continue
+		}
+		for i, pred := range outer.header.Preds {
+			if outer.body[pred] {
+				continue
+			}
+			n++
+			if v, ok := constInt(ph.Edges[i]); !ok || v != 0 {
+				return fmt.Sprintf("cursor %s enters the scanning loop with %s, not 0: the characters in front of it are never compared and the first run compared need not be a maximal run of the string", ph.Comment, ph.Edges[i].String())
+			}
+		}
+	}
+	if n == 0 {
+		return "the scanning loop has no integer cursor"
+	}
+	return ""
+}
+
 // guardTable: the guard as a function of the named atom, other atoms fixed to the given values;
 // returns (value when atom true, value when atom false, depends on other atoms)
 func guardTable(g formula, atom string, others map[string]bool) (bool, bool) {
@@ -304,6 +334,8 @@ func ruleDebian(p *Prog, r *Report) {
 		var problems []string
 		if why != "" {
 			problems = append(problems, why)
+		} else if cs := cursorStart(outer); cs != "" {
+			problems = append(problems, cs)
 		} else {
 			bySide := map[int][]scanSegment{}
 			for _, s := range segs {
